@@ -167,6 +167,14 @@ pub struct DetRun {
     /// (moves the stack and the heap)
     #[serde(default)]
     pub proc_env: u8,
+    /// address-space layout of the compiling process. Every child runs with address-space
+    /// randomisation switched off (`setarch -R`), so that addresses are a function of this value:
+    /// 0 = the canonical layout; n > 0 = before anything else the child allocates a seeded
+    /// pattern of heap blocks and frees a seeded subset of them (later allocations land in other
+    /// places and in another relative order), and its environment is padded by n % 2048 bytes
+    /// (moves the stack)
+    #[serde(default)]
+    pub layout: u64,
 }
 
 #[derive(Clone, Debug, Default, Serialize, Deserialize, PartialEq)]
@@ -384,8 +392,37 @@ fn run_history_item(h: &HistItem) -> (bool, bool) {
     }
 }
 
+/// Seeded perturbation of the heap at process start (see `DetRun::layout`).
+pub fn perturb_heap(layout: u64) {
+    if layout == 0 {
+        return;
+    }
+    let mut r = Rng::new(layout).sub("heap-layout");
+    let n = r.range(64, 512);
+    let mut blocks: Vec<Vec<u8>> = (0..n)
+        .map(|_| {
+            let sz = match r.below(4) {
+                0 => r.range(8, 64),
+                1 => r.range(64, 512),
+                2 => r.range(512, 4096),
+                _ => r.range(4096, 200_000),
+            } as usize;
+            vec![0xA5u8; sz]
+        })
+        .collect();
+    r.shuffle(&mut blocks);
+    let keep = r.below(n) as usize;
+    for b in blocks.drain(..keep) {
+        std::mem::forget(b);
+    }
+    // the rest is freed here: holes of seeded sizes for the allocations to come
+}
+
 /// Executed inside the fresh child process.
 pub fn child(run: &DetRun, dump: bool) -> (Digests, Digests) {
+    perturb_heap(run.layout);
+    let probe_box = Box::new([0u8; 48]);
+    let probe_addr = format!("{:x}", &*probe_box as *const [u8; 48] as usize);
     let probe: std::collections::HashMap<u32, u32> = (0..12).map(|i| (i, i)).collect();
     let probe_order = probe.keys().map(|k| k.to_string()).collect::<Vec<_>>().join(",");
     let (src, path) = run.target.load();
@@ -440,6 +477,7 @@ pub fn child(run: &DetRun, dump: bool) -> (Digests, Digests) {
         _ => body(),
     };
     a.probe_order = probe_order;
+    a.d.insert("info_probe_addr".into(), probe_addr);
     (a, b)
 }
 
@@ -753,6 +791,10 @@ pub fn gen_c15(seed: u64, corpus: &[String]) -> DetRun {
         placement: *r_cfg.pick(&[Placement::Main, Placement::Main, Placement::FreshThread, Placement::UsedThread]),
         samples: 48,
         proc_env: *root.sub("process-env").pick(&[0u8, 0, 1, 2, 3]),
+        layout: {
+            let mut rl = root.sub("address-space-layout");
+            if rl.chance(1, 2) { 1 + rl.next_u64() % 1_000_000_007 } else { 0 }
+        },
     }
 }
 
@@ -766,5 +808,6 @@ pub fn canonical_of(run: &DetRun) -> DetRun {
         placement: Placement::Main,
         samples: run.samples,
         proc_env: 0,
+        layout: 0,
     }
 }
